@@ -586,6 +586,94 @@ def literal(ctx, drv):
             ctx.disagree("corr.literal", {"input": src, "what": "model does not reproduce a Plain source"}, model, src)
 
 
+# --------------------------------------------------------------------------------------------- documented escapes
+
+def escape_source(rng):
+    """a source built from pieces whose documented meaning is known: (source, expected output, kinds used).
+    Expected output is computed from the construction (ground truth), not by scanning the source."""
+    src, out, kinds = [], [], []
+    bol = True                      # the next character is at a line start
+
+    def plain():
+        n = rng.randint(1, 5)
+        body = "".join(rng.choice("ab z<>&.$%#{}/-") for _ in range(n))
+        # a plain run must not begin a directive: never start with blanks/%/#/$ { < at any position we control
+        body = "x" + body.replace("${", "$ {").replace("<%", "< %").replace("</%", "</ %")
+        if rng.random() < 0.3:
+            body += rng.choice(["\n", "\r\n"])
+        return body
+    for _ in range(rng.randint(1, 7)):
+        k = rng.choice(["plain", "plain", "cont", "contcr", "hash", "doc", "pct", "text", "textempty"])
+        if k in ("hash", "pct") and not bol:
+            src.append("\n")
+            out.append("\n")
+            bol = True
+        if k == "plain":
+            p = plain()
+            src.append(p)
+            out.append(p)
+            bol = p.endswith("\n")
+        elif k in ("cont", "contcr"):
+            p = plain().rstrip("\r\n")
+            nl = "\\\n" if k == "cont" else "\\\r\n"
+            src.append(p + nl)
+            out.append(p)
+            bol = True
+        elif k == "hash":
+            ws = rng.choice(["", " ", "\t "])
+            src.append(ws + "## " + rng.choice(["note", "a ${x} <%b>", "% not a line", ""]) + rng.choice(["\n", "\r\n"]))
+            bol = True
+        elif k == "doc":
+            src.append("<%doc>" + rng.choice(["", "d", "multi\nline ${x}\n## y\n", "<%text>t</%text>"]) + "</%doc>")
+            src.append("y")         # keep the question of the terminator after </%doc> out of this stream
+            out.append("y")
+            bol = False
+        elif k == "pct":
+            ws = rng.choice(["", " ", "\t", "  "])
+            n = rng.randint(0, 2)
+            src.append(ws + "%%" + "%" * n + "q")
+            out.append(ws + "%" + "%" * n + "q")
+            bol = False
+        else:
+            body = "" if k == "textempty" else rng.choice(["t", "${x}", "<%def name='f()'>", "## c\n% if x:\n", "a\\\nb", "%%"])
+            src.append("<%text>" + body + "</%text>")
+            out.append(body)
+            bol = False             # the character before the next piece is the `>` of `</%text>`
+        kinds.append(k)
+    return "".join(src), "".join(out), kinds
+
+
+def escapes(ctx, drv):
+    """documented escapes end to end: constructed sources -> expected text (ground truth of the construction) vs the
+    real `Template(s).render_unicode()` vs the Lean pipeline lex -> tmplOfTokens -> codegen -> exec (`tgt literal`)"""
+    from mako.template import Template
+    st = ctx.stream("corr.escapes")
+    so = ctx.stream("oracle.escapes", "oracle")
+    n = 1500 if ctx.quick else 20000
+    cases = [escape_source(ctx.rng) for _ in range(n)]
+    outs = drv.ask_many(["tgt literal " + enc(c[0]) for c in cases])
+    for (src, want, kinds), o in zip(cases, outs):
+        st["cases"] += 1
+        so["cases"] += 1
+        for kk in set(kinds):
+            ctx.branch("escape:" + kk)
+        try:
+            impl = ("val", Template(src).render_unicode())
+        except Exception as ex:       # noqa
+            impl = ("exc", type(ex).__name__ + ": " + str(ex)[:80])
+        if impl != ("val", want):
+            ctx.violation("documented-escape", {"input": src, "kinds": kinds}, {"rendered": impl, "expected": want},
+                          "oracle.escapes")
+        f = o.split(" ")
+        if len(f) < 4 or f[2] == "none":
+            ctx.disagree("corr.escapes", {"input": src, "what": "model: tokens outside the escape kinds"}, o, impl)
+            continue
+        model = (f[2][:3], dec(f[3]))
+        if model != impl:
+            ctx.disagree("corr.escapes", {"input": src, "kinds": kinds}, model, impl)
+        ctx.nontriv(("escape", src))
+
+
 # --------------------------------------------------------------------------------------------- exception objects
 
 def _factories():
@@ -778,6 +866,8 @@ def run(ctx):
         ctx.log("corr.behaviour: %d runs" % ctx.streams["corr.behaviour"]["cases"])
         exception_objects(ctx, drv)
         ctx.log("corr.exception_object: %d cases" % ctx.streams["corr.exception_object"]["cases"])
+        escapes(ctx, drv)
+        ctx.log("corr.escapes: %d sources" % ctx.streams["corr.escapes"]["cases"])
         literal(ctx, drv)
         ctx.log("corr.literal: %d sources" % ctx.streams["corr.literal"]["cases"])
 
